@@ -1,5 +1,6 @@
 (* Properties_C12.v — a provider converges to the most recently supplied service. *)
-From QV Require Import Base Fields SrcFacts Msg SrcDecisions Cache CacheSpec Sim Prober Hostname Provider ProviderSpec ProviderProofs ProviderListener ProviderConverge.
+From QV Require Import Base Fields SrcFacts Msg SrcDecisions Cache CacheSpec Sim Prober Hostname Provider ProviderSpec ProviderProofs ProviderListener ProviderConverge ProviderTarget.
+From QV Require Import SimProofs.
 Local Open Scope Z_scope.
 
 (* Handler level (the run-level theorem follows below): the two publishing steps.  (1) publish() serves exactly the proposals that update() wrote
@@ -32,9 +33,9 @@ Print Assumptions C12_confirmation_publishes_partial.
    all three under one instance name that is the requested name (dots replaced by dashes) or an alternative name-k of it
    (never an alternative of an alternative), with the SRV target the proposal carries (by C10 a host name under which the
    hostname object actually registered); and these three records are exactly what a passive listener holds.
-   "First free" alternative is C07 (each candidate gets its own undisturbed two seconds).  Not proved: that the target is
-   the CURRENTLY registered host name - false for the history of the open finding `created-during-reassertion`, and it
-   needs the kernel's timer discipline for the re-assertion timer. *)
+   "First free" alternative is C07 (each candidate gets its own undisturbed two seconds).  That the target is the
+   CURRENTLY registered host name needs the kernel's timer discipline (the re-assertion timer exists only while the
+   hostname is registered) and is proved below (C12_serving_targets_current_hostname). *)
 Theorem C12_quiescent_serves_last_request c L g s :
   kreach12 c L g -> g = Some s -> pv_exists (cp_prov c) = true -> cp_prober c = None ->
   bs_data (r_target (pv_srvP (cp_prov c))) <> [] ->
@@ -67,3 +68,28 @@ Example C12_nonvacuous :
   cp_prober c = None /\ pv_confirmed (cp_prov c) = true /\ r_port (pv_srv (cp_prov c)) = 81%N /\
   bs_data (r_target (pv_srv (cp_prov c))) = [118; 109; 46; 108; 111; 99; 97; 108; 46]%N.
 Proof. vm_compute. repeat split. Qed.
+
+(* ---- last clause: "its currently registered hostname as SRV target" ----
+   [creach s L g]: s is a state of the virtual-time kernel running the composite - the clock never goes back, a timer
+   fires at or after its deadline and only if it is in the timer table, messages and API calls at any instant, one provider
+   object at a time.  Every script of the executable model that creates a provider only when none exists stays inside
+   (C12_model_runs_are_creachable).  Invariants: only the three known timers are ever armed and the re-assertion timer is
+   armed only while the hostname is registered (creach_timers); the SRV proposal's target is empty or the last registered
+   host name (creach_target).  Hence: *)
+Theorem C12_serving_targets_current_hostname s L g :
+  creach s L g ->
+  pv_exists (cp_prov (s_st s)) = true -> pv_confirmed (cp_prov (s_st s)) = true -> cp_prober (s_st s) = None ->
+  h_reg (cp_host (s_st s)) = true ->
+  r_target (pv_srv (cp_prov (s_st s))) = Some (h_name (cp_host (s_st s))).
+Proof. exact (serving_targets_current_hostname s L g). Qed.
+Print Assumptions C12_serving_targets_current_hostname.
+
+Theorem C12_model_runs_are_creachable fuel rawlocal ifs ops :
+  ops_ok fuel (comp_init rawlocal ifs) ops ->
+  exists L g, creach (state_after comp papi comp_handle fuel (comp_init rawlocal ifs) ops) L g.
+Proof. exact (comp_run_creachable fuel rawlocal ifs ops). Qed.
+Print Assumptions C12_model_runs_are_creachable.
+
+(* the remaining gap is exactly the open finding: a provider that has learnt no host name (empty target) is not confirmed
+   and serves nothing, even while the hostname object is registered - which is what happens to a provider created and
+   updated inside the re-assertion window (known_findings.json: created-during-reassertion) *)
